@@ -8,7 +8,6 @@ fn fs_engine(strategy: SearchStrategy, detect: bool) -> FastSearchEngine {
 }
 
 fn fam_fastsearch(cx: &mut Cx) {
-    let lens = lengths(cx);
     let engines: Vec<(&'static str, FastSearchEngine)> = vec![
         ("fastsearch@default", FastSearchEngine::new()),
         ("fastsearch@linear", fs_engine(SearchStrategy::Linear, true)),
@@ -21,7 +20,8 @@ fn fam_fastsearch(cx: &mut Cx) {
         if !cx.subject(name, "fastsearch", "") {
             continue;
         }
-        let eng = std::cell::RefCell::new(engine);
+        let lens = lengths(cx);
+            let eng = std::cell::RefCell::new(engine);
         let mut rng = cx.rng.derive(name);
         for &n in lens.iter() {
             // first occurrence: the needle planted at every position
@@ -98,6 +98,7 @@ fn fam_fastsearch(cx: &mut Cx) {
         }
     }
     if cx.subject("fastsearch:utils_popcount", "fastsearch", "popcount") {
+        let lens = lengths(cx);
         let mut rng = cx.rng.derive("fs-popcount");
         for &n in lens.iter() {
             for class in ["zeros", "ramp", "high", "random", "ones"] {
@@ -111,6 +112,7 @@ fn fam_fastsearch(cx: &mut Cx) {
         }
     }
     if cx.subject("fastsearch:utils_search_any_of", "fastsearch", "any") {
+        let lens = lengths(cx);
         let mut rng = cx.rng.derive("fs-any");
         for &n in lens.iter() {
             let (h, _) = hay_needle("random", n, 1, &mut rng);
